@@ -29,7 +29,20 @@ fn put16(b: &mut [u8], off: usize, v: u16) {
 #[kani::stub(dvb_gse_rust::gse_decap::read_gse_header, crate::dmodels::hdr_complete_bc)]
 #[kani::stub(dvb_gse_rust::gse_decap::iterate_over_extension_header, crate::dmodels::walker_unreachable)]
 pub fn complete_lattice() {
-    let len = any_len(FR);
+    complete_lattice_body(FR);
+}
+
+/// Same with frames and storage buffers up to 70000 bytes.
+#[kani::proof]
+#[kani::unwind(8)]
+#[kani::stub(dvb_gse_rust::gse_decap::read_gse_header, crate::dmodels::hdr_complete_bc)]
+#[kani::stub(dvb_gse_rust::gse_decap::iterate_over_extension_header, crate::dmodels::walker_unreachable)]
+pub fn complete_lattice_big() {
+    complete_lattice_body(BIG);
+}
+
+fn complete_lattice_body(zmax: usize) {
+    let len = any_len(zmax);
     let gse_len = any_len(4095);
     kani::assume(gse_len >= 2 && gse_len + 2 <= len);
     let mut buf = zeros(len);
@@ -44,7 +57,7 @@ pub fn complete_lattice() {
     if i < m {
         buf[4 + i] = x;
     }
-    let z = any_len(FR);
+    let z = any_len(zmax);
     let mut mem = <RefMem<1> as GseDecapMemory>::new(1, 0, 0, 0);
     let stor = boxed_zeros(z);
     let sp = stor.as_ptr();
@@ -61,7 +74,7 @@ pub fn complete_lattice() {
                 assert!(out[i] == x, "C01.pdu_bytes");
                 kani::cover!(i > 4000, "deep_position");
             }
-            let j = any_len(FR);
+            let j = any_len(zmax);
             if j < z && j != i {
                 assert!(out[j] == 0, "C01.no_other_byte_disturbed");
             }
@@ -115,7 +128,7 @@ pub fn intermediate_lattice_big_storage() {
 }
 
 fn intermediate_body(zmax: usize) {
-    let len = any_len(FR);
+    let len = any_len(if zmax > FR { BIG } else { FR });
     let gse_len = any_len(4095);
     kani::assume(gse_len >= 2 && gse_len + 2 <= len);
     let mut buf = zeros(len);
@@ -170,6 +183,7 @@ fn intermediate_body(zmax: usize) {
             assert!(d.memory.slots[0].is_none() && count_ptr(&d.memory, sp) == 1, "C08.buffer_in_exactly_one_place");
             kani::cover!(p + m > z, "rejected_oversize");
             kani::cover!(zmax <= FR || p + m > 65535, "counter_would_wrap");
+            kani::cover!(zmax <= FR || len > 60000, "long_frame");
         }
         _ => assert!(false, "C03.intermediate_yields_fragmented_or_error"),
     }
@@ -195,7 +209,7 @@ pub fn end_lattice_big_storage() {
 }
 
 fn end_body(zmax: usize) {
-    let len = any_len(FR);
+    let len = any_len(if zmax > FR { BIG } else { FR });
     let gse_len = any_len(4095);
     kani::assume(gse_len >= 5 && gse_len + 2 <= len);
     let mut buf = zeros(len);
@@ -265,7 +279,20 @@ fn end_body(zmax: usize) {
 #[kani::stub(dvb_gse_rust::gse_decap::read_gse_header, crate::dmodels::hdr_first_bc)]
 #[kani::stub(dvb_gse_rust::gse_decap::iterate_over_extension_header, crate::dmodels::walker_unreachable)]
 pub fn first_lattice() {
-    let len = any_len(FR);
+    first_lattice_body(FR);
+}
+
+/// Same with frames and storage buffers up to 70000 bytes.
+#[kani::proof]
+#[kani::unwind(8)]
+#[kani::stub(dvb_gse_rust::gse_decap::read_gse_header, crate::dmodels::hdr_first_bc)]
+#[kani::stub(dvb_gse_rust::gse_decap::iterate_over_extension_header, crate::dmodels::walker_unreachable)]
+pub fn first_lattice_big() {
+    first_lattice_body(BIG);
+}
+
+fn first_lattice_body(zmax: usize) {
+    let len = any_len(zmax);
     let gse_len = any_len(4095);
     kani::assume(gse_len >= 5 && gse_len + 2 <= len);
     let mut buf = zeros(len);
@@ -286,7 +313,7 @@ pub fn first_lattice() {
     if i < m {
         buf[7 + i] = x;
     }
-    let z = any_len(FR);
+    let z = any_len(zmax);
     let mut mem = <RefMem<1> as GseDecapMemory>::new(1, 0, 0, 0);
     mem.slot_hint = Some(0);
     let stor = boxed_zeros(z);
@@ -308,7 +335,7 @@ pub fn first_lattice() {
                         assert!(b[i] == x, "C03.first_payload_stored_at_offset_0");
                         kani::cover!(i > 4000, "deep_position");
                     }
-                    let j = any_len(FR);
+                    let j = any_len(zmax);
                     if j < z && j != i {
                         assert!(b[j] == 0, "C03.append_leaves_other_bytes");
                     }
